@@ -1148,14 +1148,14 @@ def fam_vdenom(vt, cfg):
         i = Inst(nm, VV, "V", body, lanewise2(lambda c, x, y, o=o: T.op(o, c.vt.eb, x, y)))
         i.env_ok = denom_env_ok(vt, "b")
         i.clause = "value"
-        i.budget_s = 1.0 if TIER == "quick" else 6
+        i.budget_s = (4 if TIER == "quick" else 30) if vt.eb == 8 else (1.0 if TIER == "quick" else 6)
         i.wrapper_only = nm.endswith("_op")     # tied to div() by body equality
         I.append(i)
     for nm, pre, o in (("vd_quo_assign", "a /= %s{b};" % D, q), ("vd_rem_assign", "a %%= %s{b};" % D, r)):
         i = Inst(nm, VV, "V", "a", lanewise2(lambda c, x, y, o=o: T.op(o, c.vt.eb, x, y)), pre=pre)
         i.env_ok = denom_env_ok(vt, "b")
         i.clause = "value"
-        i.budget_s = 1.0 if TIER == "quick" else 6
+        i.budget_s = (4 if TIER == "quick" else 30) if vt.eb == 8 else (1.0 if TIER == "quick" else 6)
         i.wrapper_only = True                   # tied to div() by body equality
         I.append(i)
     # broadcast from a scalar denominator: same results as the vector {d,d,...}
@@ -1166,7 +1166,7 @@ def fam_vdenom(vt, cfg):
                  lambda c, o=o: c.pack([T.op(o, c.vt.eb, x, c.args["d"]) for x in c.lanes("a")]))
         i.env_ok = denom_env_ok(vt, "d")
         i.clause = "broadcast"
-        i.budget_s = 1.5 if TIER == "quick" else 6
+        i.budget_s = (4 if TIER == "quick" else 30) if vt.eb == 8 else (1.5 if TIER == "quick" else 6)
         I.append(i)
     for nm, body in (("bcref_quot", "div(a, %s{V{d}}).quot" % D), ("bcref_rem", "div(a, %s{V{d}}).rem" % D)):
         i = Inst(nm, AS, "V", body, None)
